@@ -265,3 +265,683 @@ Example fixed_survives_witnesses :
     [AdTake; AdHandle; CSend (MReq 1); RdMsg; RdSend; AdTake; AdHandle;
      SEnd 0; FwRecv 0; SEmit 1 5; FwRecv 1; FwSend 1]) = Some false).
 Proof. vm_compute. auto. Qed.
+
+(* ================================================================ 2. stop, no blocking *)
+
+(* nothing internal (reader, write loop, adapter incl. the handler call, stoppers,
+   forwarders) can move: the session waits for the client or the service *)
+Definition quiescent (fx : fixes) (s : st) : Prop :=
+  forall a, internal a = true -> step fx s a = None.
+
+(* instantiate quiescence with action A and simplify with the equations at hand *)
+Ltac stuck Hq A :=
+  let H := fresh "Hs" in
+  pose proof (Hq A eq_refl) as H; unfold step, wr_release, leave, handler_ok in H; cbn -[Nat.ltb] in H;
+  repeat match goal with
+  | E : ?x = _ |- _ => tryif constr_eq E H then fail else (progress rewrite E in H; cbn -[Nat.ltb] in H)
+  end;
+  try discriminate H.
+
+Lemma quiescent_adapter_exited s :
+  Inv s -> quiescent fixed s -> cleft (nt s) = true -> ad (pc s) = AExit.
+Proof.
+  intros [[I1 I2 I3 I3' I4] [O1 O2 O3 O4] Hc] Hq Hl.
+  destruct (ad (pc s)) as [|m|] eqn:Ea; auto; exfalso.
+  - (* ALoop *)
+    assert (Hsa : stopall (pc s) = false).
+    { destruct (stopall (pc s)) eqn:E; auto. destruct O4 as [O4a _]. specialize (O4a eq_refl). discriminate. }
+    destruct (cin (wk s)) as [|m r] eqn:Ecin.
+    + destruct (cin_closed (wk s)) eqn:Ecc.
+      * stuck Hq AdEnd.
+      * destruct (rd (wk s)) as [|m| |] eqn:Er.
+        -- stuck Hq RdErr.
+        -- stuck Hq RdSend.
+        -- stuck Hq RdFinish.
+        -- destruct I1 as [_ I1b]. specialize (I1b eq_refl). discriminate.
+    + destruct (out_closed (pc s)) eqn:Eoc; stuck Hq AdTake.
+  - (* ABusy *)
+    destruct (handler_ok s m) eqn:Eh.
+    + destruct m as [c|]; [|discriminate]. unfold handler_ok in Eh. stuck Hq AdHandle.
+    + unfold handler_ok in Eh. destruct m as [c|]; stuck Hq AdBad.
+Qed.
+
+(* when the client closes or disappears, the service is told to stop: in every
+   state in which nothing internal is left to do, every request of the session has
+   its stop channel closed *)
+Theorem stop_signalled m0 n acts s :
+  run fixed (init m0 n) acts = Some s -> quiescent fixed s -> cleft (nt s) = true ->
+  forall k r, nth_error (reqs (pc s)) k = Some r -> stp r = true.
+Proof.
+  intros Hr Hq Hl k r Hk. pose proof (reachable_Inv _ _ _ _ Hr) as Hinv.
+  pose proof (quiescent_adapter_exited s Hinv Hq Hl) as Ha.
+  destruct Hinv as [_ [O1 O2 O3 O4] Hc].
+  assert (Hsa : stopall (pc s) = true) by (apply O4; exact Ha).
+  destruct (stp r) eqn:Es; auto. exfalso. stuck Hq (StStop k).
+Qed.
+
+(* ================================================================ 3. what the client gets *)
+
+Definition closes (l : list sframe) : list ccode :=
+  flat_map (fun f => match f with SClose c => [c] | SMsg _ => [] end) l.
+
+Lemma wmsgs_app a b : wmsgs (a ++ b) = wmsgs a ++ wmsgs b.
+Proof. unfold wmsgs. now rewrite flat_map_app. Qed.
+Lemma closes_app a b : closes (a ++ b) = closes a ++ closes b.
+Proof. unfold closes. now rewrite flat_map_app. Qed.
+
+(* the write side, any variant: data frames, then at most one close frame; a
+   protocol-error close only towards a client that has left *)
+Record InvW (s : st) : Prop := {
+  w_shape : wsout (nt s) = map SMsg (wmsgs (wsout (nt s))) ++ map SClose (closes (wsout (nt s)));
+  w_closes : match wr (wk s) with
+             | WLoop | WFin (Some _) => closes (wsout (nt s)) = []
+             | WFin None => closes (wsout (nt s)) = [CNormal]
+             | WExit => closes (wsout (nt s)) = [CNormal] \/
+                        (closes (wsout (nt s)) = [CProto] /\ cleft (nt s) = true)
+             end;
+  w_proto : forall c, wr (wk s) = WFin (Some c) -> c = CProto /\ cleft (nt s) = true;
+  w_dropped_loop : wr (wk s) = WLoop -> dropped (nt s) = [];
+  w_dropped : dropped (nt s) <> [] -> cleft (nt s) = true;
+  w_closing : closing (wk s) = true -> cleft (nt s) = true \/ wsclosed (nt s) = true;
+  w_wsclosed : wsclosed (nt s) = true <-> wr (wk s) = WExit;
+  w_normal : In CNormal (closes (wsout (nt s))) -> out_closed (pc s) = true /\ out (pc s) = [] }.
+
+Lemma InvW_init m0 n : InvW (init m0 n).
+Proof. constructor; cbn; intuition (try discriminate; try congruence). Qed.
+
+Lemma wmsgs_msg l x : wmsgs (l ++ [SMsg x]) = wmsgs l ++ [x].
+Proof. now rewrite wmsgs_app. Qed.
+Lemma wmsgs_close l c : wmsgs (l ++ [SClose c]) = wmsgs l.
+Proof. rewrite wmsgs_app. cbn. now rewrite app_nil_r. Qed.
+Lemma closes_msg l x : closes (l ++ [SMsg x]) = closes l.
+Proof. rewrite closes_app. cbn. now rewrite app_nil_r. Qed.
+Lemma closes_close l c : closes (l ++ [SClose c]) = closes l ++ [c].
+Proof. now rewrite closes_app. Qed.
+
+Ltac proj :=
+  cbn [nt wk pc svc crashed wsin cleft wsout crecv wsclosed dropped rd wr cin cin_closed closing done
+       ad out out_closed once active stopall reqs set_nt set_wk set_pc set_svc crash rc fw stp set_fw
+       buf sclosed emitted] in *.
+
+Ltac wsimp := rewrite ?wmsgs_msg, ?wmsgs_close, ?closes_msg, ?closes_close, ?map_app in *; cbn [map app] in *.
+
+Definition shape (l : list sframe) : Prop := l = map SMsg (wmsgs l) ++ map SClose (closes l).
+
+Lemma shape_msg l x : closes l = [] -> shape l -> shape (l ++ [SMsg x]).
+Proof.
+  unfold shape. intros Hc Hs. rewrite wmsgs_msg, closes_msg, Hc, map_app. cbn. rewrite app_nil_r.
+  rewrite Hc in Hs. cbn in Hs. rewrite app_nil_r in Hs. now rewrite <- Hs.
+Qed.
+
+Lemma shape_close l c : closes l = [] -> shape l -> shape (l ++ [SClose c]).
+Proof.
+  unfold shape. intros Hc Hs. rewrite wmsgs_close, closes_close, Hc. cbn.
+  rewrite Hc in Hs. cbn in Hs. rewrite app_nil_r in Hs. now rewrite <- Hs.
+Qed.
+
+Lemma step_InvW fx s a s' : InvW s -> step fx s a = Some s' -> InvW s'.
+Proof.
+  intros [W1 W2 W3 W4 W5 W6 W7 W8] H. fold (shape (wsout (nt s))) in W1.
+  unfold step in H. destruct (crashed s) eqn:Ec; [discriminate|].
+  destruct fx as [a18 a19].
+  destruct a; cbn in H; unfold wr_release, leave in H; cbn in H; destruct a18, a19; dmatch H; inv H;
+    try (constructor; proj; auto; fail).
+  all: constructor; proj; try fold (shape (wsout (nt s) ++ [SMsg o])); auto.
+  all: repeat match goal with
+       | E : (_ || _) = true |- _ => apply orb_true_iff in E
+       | E : wr (wk ?s0) = _ |- _ => rewrite E in *; clear E
+       end; proj.
+  all: try (apply shape_msg; assumption).
+  all: try (apply shape_close; assumption).
+  all: wsimp.
+  all: try match goal with
+       | |- context[match wr (wk ?s0) with _ => _ end] => destruct (wr (wk s0)) as [|[?|]|] eqn:?
+       end.
+  all: repeat match goal with
+       | H : closes _ = _ |- _ => rewrite H in *
+       end; cbn [map app] in *.
+  all: try (intuition (try discriminate; try congruence); fail).
+  all: try (intros c Hc; destruct (W3 c Hc) as [-> _]; auto; fail).
+  all: try match goal with
+       | W3 : forall c, WFin (Some ?c0) = WFin (Some c) -> _ |- _ =>
+           destruct (W3 c0 eq_refl) as [-> ?]; auto
+       end.
+  all: intros [Hx|[]]; discriminate.
+Qed.
+
+(* ---- the pipeline service channel -> forwarder -> outChan -> connection ---- *)
+
+Definition count_rc (c : nat) (rs : list req) : nat := length (filter (fun r => rc r =? c) rs).
+
+Definition contrib (c : nat) (r : req) : list nat :=
+  if rc r =? c then match fw r with FHave v => [v] | _ => [] end else [].
+
+Lemma held_cons c r rs : held c (r :: rs) = contrib c r ++ held c rs.
+Proof. reflexivity. Qed.
+
+Lemma held_app c a b : held c (a ++ b) = held c a ++ held c b.
+Proof. unfold held. now rewrite flat_map_app. Qed.
+
+Lemma count_rc_app c a b : count_rc c (a ++ b) = count_rc c a + count_rc c b.
+Proof. unfold count_rc. now rewrite filter_app, app_length. Qed.
+
+Lemma count_rc_upd c rs : forall k r r',
+  nth_error rs k = Some r -> rc r' = rc r -> count_rc c (upd rs k r') = count_rc c rs.
+Proof.
+  induction rs as [|x t IH]; intros [|k] r r' H Hrc; cbn in *; try discriminate.
+  - inv H. unfold count_rc. cbn. rewrite Hrc. destruct (rc r =? c); reflexivity.
+  - unfold count_rc in *. cbn. specialize (IH k r r' H Hrc). destruct (rc x =? c); cbn; auto.
+Qed.
+
+(* no request of the list answers on channel c *)
+Lemma held_none c rs : count_rc c rs = 0 -> held c rs = [].
+Proof.
+  induction rs as [|x t IH]; intros H; auto. rewrite held_cons. unfold count_rc in *. cbn in H.
+  unfold contrib. destruct (rc x =? c); cbn in H; [discriminate|]. now rewrite IH.
+Qed.
+
+(* the only request on channel c *)
+Lemma count_rc_in c rs : forall k r, nth_error rs k = Some r -> rc r = c -> count_rc c rs >= 1.
+Proof.
+  induction rs as [|y t IH]; intros [|k] r H Hr; cbn in *; try discriminate.
+  - inv H. unfold count_rc. cbn. rewrite Nat.eqb_refl. cbn. lia.
+  - unfold count_rc in *. cbn. specialize (IH k r H Hr). destruct (rc y =? c); cbn; lia.
+Qed.
+
+Lemma held_upd_one c rs : forall k r r',
+  count_rc c rs <= 1 -> nth_error rs k = Some r -> rc r = c -> rc r' = c ->
+  held c rs = contrib c r /\ held c (upd rs k r') = contrib c r'.
+Proof.
+  induction rs as [|x t IH]; intros [|k] r r' Hc H Hr Hr'; cbn [nth_error upd] in *; try discriminate.
+  - inv H. rewrite !held_cons. unfold count_rc in Hc. cbn in Hc. rewrite Nat.eqb_refl in Hc. cbn in Hc.
+    assert (Hz : count_rc (rc r) t = 0) by (unfold count_rc; lia).
+    rewrite (held_none (rc r) t Hz). now rewrite !app_nil_r.
+  - rewrite !held_cons. pose proof (count_rc_in c t k r H Hr) as Hin.
+    unfold count_rc in Hc, Hin. cbn in Hc.
+    unfold contrib at 1 3. destruct (rc x =? c) eqn:E; cbn in Hc; [lia|].
+    cbn. apply IH; auto.
+Qed.
+
+Lemma held_upd_same c rs : forall k r r',
+  nth_error rs k = Some r -> contrib c r' = contrib c r -> held c (upd rs k r') = held c rs.
+Proof.
+  induction rs as [|x t IH]; intros [|k] r r' H Hc; cbn [nth_error upd] in *; try discriminate.
+  - inv H. rewrite !held_cons. now rewrite Hc.
+  - rewrite !held_cons. f_equal. eapply IH; eauto.
+Qed.
+
+Lemma on_chan_app c a b : on_chan c (a ++ b) = on_chan c a ++ on_chan c b.
+Proof. unfold on_chan. now rewrite filter_app, map_app. Qed.
+
+Lemma on_chan_one_same c v : on_chan c [(c, v)] = [v].
+Proof. unfold on_chan. cbn. now rewrite Nat.eqb_refl. Qed.
+
+Lemma on_chan_one_other c c' v : c' <> c -> on_chan c [(c', v)] = [].
+Proof. intros H. unfold on_chan. cbn. apply Nat.eqb_neq in H. now rewrite H. Qed.
+
+Record InvP (s : st) : Prop := {
+  p_exit : forall k r, nth_error (reqs (pc s)) k = Some r -> fw r = FExit ->
+           exists ch, nth_error (svc s) (rc r) = Some ch /\ buf ch = [] /\ sclosed ch = true;
+  p_pipe : forall c ch, nth_error (svc s) c = Some ch -> count_rc c (reqs (pc s)) <= 1 ->
+           on_chan c (wmsgs (wsout (nt s)) ++ dropped (nt s) ++ out (pc s)) ++
+           held c (reqs (pc s)) ++ buf ch = emitted ch }.
+
+Lemma InvP_init m0 n : InvP (init m0 n).
+Proof.
+  constructor; cbn.
+  - intros [|k] r H; discriminate.
+  - intros c ch H _. apply nth_error_In, repeat_spec in H. subst. reflexivity.
+Qed.
+
+Ltac norm_eqs :=
+  repeat match goal with
+  | E : ?f (?g ?s0) = _ |- _ => progress rewrite E
+  end.
+
+(* an exited forwarder's channel is closed and drained, so no step changes it *)
+Lemma svc_upd_exit (sv : list chan_st) c (c0 x ch : chan_st) i :
+  nth_error sv c = Some c0 -> (buf c0 <> [] \/ sclosed c0 = false) ->
+  nth_error sv i = Some ch -> buf ch = [] -> sclosed ch = true ->
+  nth_error (upd sv c x) i = Some ch.
+Proof.
+  intros Hc Hne Hi Hb Hs. destruct (Nat.eq_dec c i) as [->|Hn].
+  - rewrite Hc in Hi. inv Hi. destruct Hne; congruence.
+  - now rewrite nth_error_upd_other.
+Qed.
+
+Lemma step_p_exit fx s a s' :
+  InvP s -> step fx s a = Some s' ->
+  forall k r, nth_error (reqs (pc s')) k = Some r -> fw r = FExit ->
+  exists ch, nth_error (svc s') (rc r) = Some ch /\ buf ch = [] /\ sclosed ch = true.
+Proof.
+  intros [P1 P2] H. unfold step in H. destruct (crashed s) eqn:Ec; [discriminate|].
+  destruct fx as [a18 a19].
+  destruct a; cbn in H; unfold wr_release, leave in H; cbn in H; dmatch H; inv H; proj; auto.
+  all: intros k0 r0 Hk Hf.
+  (* the service sends on / closes an open channel *)
+  1-2: destruct (P1 k0 r0 Hk Hf) as (ch & Hn & Hb & Hs); exists ch; split; [|auto];
+       eapply svc_upd_exit; eauto.
+  - (* a new request *)
+    destruct (Nat.lt_ge_cases k0 (length (reqs (pc s)))) as [Hlt|Hge].
+    + rewrite nth_error_app1 in Hk by assumption. eauto.
+    + rewrite nth_error_app2 in Hk by assumption.
+      destruct (k0 - length (reqs (pc s))) as [|[|j]]; cbn in Hk; try discriminate. inv Hk. discriminate.
+  - (* stopper *)
+    apply nth_error_upd in Hk as [(<- & -> & _)|(Hne & Hk)]; proj; eauto.
+  - (* forwarder leaves: its channel is closed and drained *)
+    apply nth_error_upd in Hk as [(<- & -> & _)|(Hne & Hk)]; proj; eauto.
+  - apply nth_error_upd in Hk as [(<- & -> & _)|(Hne & Hk)]; proj; eauto.
+  - apply nth_error_upd in Hk as [(<- & -> & _)|(Hne & Hk)]; proj; eauto.
+  - apply nth_error_upd in Hk as [(<- & -> & _)|(Hne & Hk)]; proj; eauto.
+  - (* forwarder takes a value *)
+    apply nth_error_upd in Hk as [(<- & -> & _)|(Hne & Hk)]; [discriminate|].
+    destruct (P1 k0 r0 Hk Hf) as (ch & Hn & Hb & Hs). exists ch. split; [|auto].
+    eapply svc_upd_exit; eauto. left. congruence.
+  - (* forwarder sends *)
+    apply nth_error_upd in Hk as [(<- & -> & _)|(Hne & Hk)]; [discriminate|]. eauto.
+Qed.
+
+
+Lemma step_p_pipe fx s a s' :
+  InvW s -> InvP s -> step fx s a = Some s' ->
+  forall c ch, nth_error (svc s') c = Some ch -> count_rc c (reqs (pc s')) <= 1 ->
+  on_chan c (wmsgs (wsout (nt s')) ++ dropped (nt s') ++ out (pc s')) ++
+  held c (reqs (pc s')) ++ buf ch = emitted ch.
+Proof.
+  intros HW [P1 P2] H. pose proof (w_dropped_loop s HW) as WD.
+  unfold step in H. destruct (crashed s) eqn:Ec; [discriminate|].
+  destruct fx as [a18 a19].
+  destruct a; cbn in H; unfold wr_release, leave in H; cbn in H; dmatch H; inv H; proj; wsimp; auto.
+  all: intros c1 ch1 Hn Hcnt.
+  all: repeat match goal with
+       | E : out (pc ?s0) = _ |- context[out (pc ?s0)] => rewrite E
+       end.
+  - (* service emits *)
+    apply nth_error_upd in Hn as [(<- & -> & _)|(Hne & Hn)]; [|auto]. proj.
+    rewrite <- (P2 c c0 E Hcnt). now rewrite !app_assoc.
+  - (* service closes *)
+    apply nth_error_upd in Hn as [(<- & -> & _)|(Hne & Hn)]; [|auto]. proj. auto.
+  - (* write loop forwards *)
+    rewrite <- (P2 c1 ch1 Hn Hcnt). rewrite (WD eq_refl). cbn. now rewrite <- app_assoc.
+  - rewrite <- (P2 c1 ch1 Hn Hcnt). reflexivity.
+  - (* write fails *)
+    rewrite <- (P2 c1 ch1 Hn Hcnt). rewrite (WD eq_refl). reflexivity.
+  - rewrite <- (P2 c1 ch1 Hn Hcnt). reflexivity.
+  - rewrite <- (P2 c1 ch1 Hn Hcnt). reflexivity.
+  - (* new request *)
+    rewrite count_rc_app in Hcnt. rewrite held_app. cbn [held flat_map]. proj.
+    destruct (c =? c1); rewrite !app_nil_r; apply P2; auto; lia.
+  - (* stopper *)
+    erewrite count_rc_upd in Hcnt; [|exact E|reflexivity].
+    erewrite held_upd_same; [|exact E|reflexivity]. auto.
+  - erewrite count_rc_upd in Hcnt; [|exact E|reflexivity].
+    erewrite held_upd_same; [auto|exact E|]. unfold contrib. proj. match goal with Hf : fw r = _ |- _ => now rewrite Hf end.
+  - erewrite count_rc_upd in Hcnt; [|exact E|reflexivity].
+    erewrite held_upd_same; [auto|exact E|]. unfold contrib. proj. match goal with Hf : fw r = _ |- _ => now rewrite Hf end.
+  - erewrite count_rc_upd in Hcnt; [|exact E|reflexivity].
+    erewrite held_upd_same; [auto|exact E|]. unfold contrib. proj. match goal with Hf : fw r = _ |- _ => now rewrite Hf end.
+  - erewrite count_rc_upd in Hcnt; [|exact E|reflexivity].
+    erewrite held_upd_same; [auto|exact E|]. unfold contrib. proj. match goal with Hf : fw r = _ |- _ => now rewrite Hf end.
+  - (* forwarder takes a value *)
+    erewrite count_rc_upd in Hcnt; [|exact E|reflexivity].
+    apply nth_error_upd in Hn as [(<- & -> & _)|(Hne & Hn)]; proj.
+    + destruct (held_upd_one (rc r) _ k r (set_fw r (FHave n)) Hcnt E eq_refl eq_refl) as [Ho Hnw].
+      rewrite Hnw. rewrite <- (P2 (rc r) c E1 Hcnt). rewrite Ho, E2. unfold contrib. proj.
+      rewrite Nat.eqb_refl, E0. reflexivity.
+    + erewrite held_upd_same; [auto|exact E|].
+      unfold contrib. proj. apply Nat.eqb_neq in Hne. now rewrite Hne.
+  - (* forwarder sends *)
+    erewrite count_rc_upd in Hcnt; [|exact E|reflexivity].
+    rewrite !app_assoc, on_chan_app, <- !app_assoc.
+    destruct (Nat.eq_dec (rc r) c1) as [<-|Hne].
+    + destruct (held_upd_one (rc r) _ k r (set_fw r FRecv) Hcnt E eq_refl eq_refl) as [Ho Hnw].
+      rewrite Hnw, on_chan_one_same. rewrite <- (P2 (rc r) ch1 Hn Hcnt). rewrite Ho. unfold contrib. proj.
+      rewrite Nat.eqb_refl, E0. reflexivity.
+    + rewrite on_chan_one_other by assumption. erewrite held_upd_same; [|exact E|].
+      * cbn [app]. apply P2; auto.
+      * unfold contrib. proj. apply Nat.eqb_neq in Hne. now rewrite Hne.
+Qed.
+
+Record InvH (s : st) : Prop := { hw : InvW s; hp : InvP s }.
+
+Lemma step_InvH fx s a s' : InvH s -> step fx s a = Some s' -> InvH s'.
+Proof.
+  intros [HW HP] H. constructor.
+  - eapply step_InvW; eauto.
+  - constructor.
+    + eapply step_p_exit; eauto.
+    + eapply step_p_pipe; eauto.
+Qed.
+
+Lemma reachable_InvH fx m0 n acts s : run fx (init m0 n) acts = Some s -> InvH s.
+Proof.
+  apply (run_inv fx InvH (step_InvH fx)). constructor; [apply InvW_init|apply InvP_init].
+Qed.
+
+(* Order, no duplication, no invention -- in every reachable state of the pinned
+   and of the fixed code alike: on a service channel c that a single request
+   answers on, what was written to the client, what is still in outChan, in the
+   forwarder's hand and in the service channel is, in this order, exactly what
+   the service emitted on c. In particular the client-side sequence on c is a
+   prefix of the emission sequence (when nothing was dropped: equal up to the
+   part still in flight). *)
+Theorem order_pipeline fx m0 n acts s c ch :
+  run fx (init m0 n) acts = Some s ->
+  nth_error (svc s) c = Some ch -> count_rc c (reqs (pc s)) <= 1 ->
+  on_chan c (wmsgs (wsout (nt s)) ++ dropped (nt s) ++ out (pc s)) ++
+  held c (reqs (pc s)) ++ buf ch = emitted ch.
+Proof. intros H. apply (p_pipe s (hp s (reachable_InvH _ _ _ _ _ H))). Qed.
+
+Fixpoint prefix_of (a b : list nat) : Prop :=
+  match a, b with
+  | [], _ => True
+  | x :: a', y :: b' => x = y /\ prefix_of a' b'
+  | _ :: _, [] => False
+  end.
+
+Lemma prefix_of_app a b : prefix_of a (a ++ b).
+Proof. induction a; cbn; auto. Qed.
+
+Corollary order_prefix fx m0 n acts s c ch :
+  run fx (init m0 n) acts = Some s ->
+  nth_error (svc s) c = Some ch -> count_rc c (reqs (pc s)) <= 1 ->
+  prefix_of (on_chan c (wmsgs (wsout (nt s)))) (emitted ch).
+Proof.
+  intros H Hn Hc. rewrite <- (order_pipeline fx m0 n acts s c ch H Hn Hc).
+  rewrite !on_chan_app, <- !app_assoc. apply prefix_of_app.
+Qed.
+
+(* C15-N2: with two requests answered on ONE service channel two forwarders race
+   and the client gets the values in the wrong order (both variants) *)
+Theorem order_shared_refuted :
+  exists acts s ch, run fixed (init (MReq 0) 1) acts = Some s /\
+    nth_error (svc s) 0 = Some ch /\ emitted ch = [1; 2] /\
+    on_chan 0 (wmsgs (wsout (nt s))) = [2; 1].
+Proof.
+  exists [AdTake; AdHandle; CSend (MReq 0); RdMsg; RdSend; AdTake; AdHandle;
+          SEmit 0 1; SEmit 0 2; FwRecv 0; FwRecv 1; FwSend 1; FwSend 0; WrFwd; WrFwd].
+  eexists. eexists. vm_compute. repeat split.
+Qed.
+
+(* every request answers on a channel the service has *)
+Definition InvC (s : st) : Prop :=
+  forall k r, nth_error (reqs (pc s)) k = Some r -> rc r < length (svc s).
+
+Lemma step_InvC fx s a s' : InvC s -> step fx s a = Some s' -> InvC s'.
+Proof.
+  intros HC H. unfold InvC in *. unfold step in H. destruct (crashed s) eqn:Ec; [discriminate|].
+  destruct fx as [a18 a19].
+  destruct a; cbn in H; unfold wr_release, leave, handler_ok in H; cbn -[Nat.ltb] in H; dmatch H; inv H; proj;
+    rewrite ?upd_length; auto.
+  all: intros k0 r0 Hk.
+  all: try (apply nth_error_upd in Hk as [(<- & -> & _)|(Hne & Hk)]; proj; eauto; fail).
+  destruct (Nat.lt_ge_cases k0 (length (reqs (pc s)))) as [Hlt|Hge].
+  - rewrite nth_error_app1 in Hk by assumption. eauto.
+  - rewrite nth_error_app2 in Hk by assumption.
+    destruct (k0 - length (reqs (pc s))) as [|[|j]]; cbn in Hk; try discriminate. inv Hk. proj.
+    now apply Nat.ltb_lt.
+Qed.
+
+Lemma reachable_InvC fx m0 n acts s : run fx (init m0 n) acts = Some s -> InvC s.
+Proof. apply (run_inv fx InvC (step_InvC fx)). intros [|k] r H; discriminate. Qed.
+
+Lemma filter_nil {A} (p : A -> bool) l : (forall x, In x l -> p x = false) -> filter p l = [].
+Proof.
+  induction l as [|x t IH]; intros H; cbn; auto. rewrite (H x (or_introl eq_refl)). apply IH.
+  intros y Hy. apply H. now right.
+Qed.
+
+Lemma held_all_exit c rs : (forall k r, nth_error rs k = Some r -> fw r = FExit) -> held c rs = [].
+Proof.
+  induction rs as [|x t IH]; intros H; auto. rewrite held_cons, IH.
+  - unfold contrib. rewrite (H 0 x eq_refl). now destruct (rc x =? c).
+  - intros k r Hk. apply (H (S k) r Hk).
+Qed.
+
+(* Nothing stays blocked: once every service has ended its channels and nothing
+   internal is left to do, every goroutine of the session has returned -- unless
+   outChan is full (100 undelivered messages behind a client that is gone), the
+   one residual case in which forwarders stay parked in their send. *)
+Theorem no_block m0 n acts s :
+  run fixed (init m0 n) acts = Some s -> quiescent fixed s ->
+  (forall c ch, nth_error (svc s) c = Some ch -> sclosed ch = true) ->
+  length (out (pc s)) < out_cap ->
+  rd (wk s) = RExit /\ wr (wk s) = WExit /\ ad (pc s) = AExit /\
+  (forall k r, nth_error (reqs (pc s)) k = Some r -> fw r = FExit /\ stp r = true) /\
+  census s = 0.
+Proof.
+  intros Hr Hq Hsv Hcap. pose proof (reachable_Inv _ _ _ _ Hr) as [[I1 I2 I3 I3' I4] [O1 O2 O3 O4] Hc].
+  pose proof (reachable_InvC _ _ _ _ _ Hr) as HC.
+  (* forwarders *)
+  assert (Hfw : forall k r, nth_error (reqs (pc s)) k = Some r -> fw r = FExit).
+  { intros k r Hk. destruct (fw r) as [|v|] eqn:Ef; auto; exfalso.
+    - pose proof (HC k r Hk) as Hlt. apply nth_error_Some in Hlt.
+      destruct (nth_error (svc s) (rc r)) as [ch|] eqn:Ech; [|congruence].
+      pose proof (Hsv _ _ Ech) as Hcl. destruct (buf ch) as [|v b] eqn:Eb; stuck Hq (FwRecv k).
+    - destruct (out_closed (pc s)) eqn:Eoc; [stuck Hq (FwSend k)|].
+      apply Nat.ltb_lt in Hcap. stuck Hq (FwSend k). }
+  assert (Hlive : live (reqs (pc s)) = 0) by (apply live_zero_conv; exact Hfw).
+  (* write loop *)
+  assert (Hwr : wr (wk s) = WExit).
+  { destruct (wr (wk s)) as [|oc|] eqn:Ew; auto; exfalso.
+    - destruct (out (pc s)) as [|x o] eqn:Eo; [|stuck Hq WrFwd].
+      destruct (ad (pc s)) as [|m|] eqn:Ea.
+      + destruct (out_closed (pc s)) eqn:Eoc.
+        * destruct (done (wk s)) eqn:Ed; [destruct I2 as [I2a _]; specialize (I2a eq_refl); discriminate|].
+          stuck Hq WrOutClosed.
+        * cbn in O1. destruct (O3 eq_refl ltac:(lia)) as (_ & _ & Hcin).
+          destruct (cin (wk s)) as [|m r] eqn:Ecin; [congruence|]. stuck Hq AdTake.
+      + destruct (handler_ok s m) eqn:Eh.
+        * destruct m as [c|]; [|discriminate]. unfold handler_ok in Eh. stuck Hq AdHandle.
+        * unfold handler_ok in Eh. destruct m as [c|]; stuck Hq AdBad.
+      + destruct (out_closed (pc s)) eqn:Eoc.
+        * destruct (done (wk s)) eqn:Ed; [destruct I2 as [I2a _]; specialize (I2a eq_refl); discriminate|].
+          stuck Hq WrOutClosed.
+        * cbn in O1. destruct (O3 eq_refl ltac:(lia)) as (_ & Hx & _). discriminate.
+    - stuck Hq WrFinish. }
+  assert (Hdone : done (wk s) = true).
+  { destruct (done (wk s)) eqn:Ed; auto. destruct I2 as [_ I2b]. specialize (I2b eq_refl). congruence. }
+  assert (Hws : wsclosed (nt s) = true) by (apply I4; exact Hwr).
+  (* reader *)
+  assert (Hrd : rd (wk s) = RExit).
+  { destruct (rd (wk s)) as [|m| |] eqn:Er; auto; exfalso.
+    - stuck Hq RdErr. rewrite orb_true_r in Hs. discriminate.
+    - stuck Hq RdDone.
+    - destruct (cin_closed (wk s)) eqn:Ecc.
+      + destruct I1 as [I1a _]. specialize (I1a eq_refl). discriminate.
+      + stuck Hq RdFinish. }
+  assert (Hcc : cin_closed (wk s) = true) by (apply I1; exact Hrd).
+  (* adapter *)
+  assert (Had : ad (pc s) = AExit).
+  { destruct (ad (pc s)) as [|m|] eqn:Ea; auto; exfalso.
+    - assert (Hsa : stopall (pc s) = false).
+      { destruct (stopall (pc s)) eqn:E; auto. destruct O4 as [O4a _]. specialize (O4a eq_refl). discriminate. }
+      destruct (cin (wk s)) as [|m r] eqn:Ecin; [stuck Hq AdEnd|].
+      destruct (out_closed (pc s)) eqn:Eoc; stuck Hq AdTake.
+    - destruct (handler_ok s m) eqn:Eh.
+      + destruct m as [c|]; [|discriminate]. unfold handler_ok in Eh. stuck Hq AdHandle.
+      + unfold handler_ok in Eh. destruct m as [c|]; stuck Hq AdBad. }
+  assert (Hsa : stopall (pc s) = true) by (apply O4; exact Had).
+  assert (Hst : forall k r, nth_error (reqs (pc s)) k = Some r -> stp r = true).
+  { intros k r Hk. destruct (stp r) eqn:Es; auto. exfalso. stuck Hq (StStop k). }
+  split; [exact Hrd|]. split; [exact Hwr|]. split; [exact Had|].
+  split; [intros k r Hk; split; eauto|].
+  unfold census. rewrite Hrd, Hwr, Had. cbn.
+  rewrite !filter_nil; auto.
+  - intros x Hx. apply In_nth_error in Hx as [k Hk]. now rewrite (Hfw k x Hk).
+  - intros x Hx. apply In_nth_error in Hx as [k Hk]. now rewrite (Hst k x Hk).
+Qed.
+
+(* When the service ends the stream and the client stays: the client has been sent
+   every message the service emitted, per service channel in emission order,
+   followed by the normal close, and nothing else. *)
+Theorem order_complete m0 n acts s :
+  run fixed (init m0 n) acts = Some s -> quiescent fixed s ->
+  cleft (nt s) = false ->
+  (forall c ch, nth_error (svc s) c = Some ch -> sclosed ch = true) ->
+  exists msgs,
+    wsout (nt s) = map SMsg msgs ++ [SClose CNormal] /\
+    forall c ch, nth_error (svc s) c = Some ch -> count_rc c (reqs (pc s)) = 1 ->
+                 on_chan c msgs = emitted ch.
+Proof.
+  intros Hr Hq Hl Hsv.
+  pose proof (reachable_InvH _ _ _ _ _ Hr) as [[W1 W2 W3 W4 W5 W6 W7 W8] [P1 P2]].
+  pose proof (reachable_Inv _ _ _ _ Hr) as [[I1 I2 I3 I3' I4] [O1 O2 O3 O4] Hc].
+  (* a client that stays is never the reason for the write loop to stop: outChan drains *)
+  assert (Hwl : wr (wk s) = WLoop -> out (pc s) = []).
+  { intros Ew. destruct (out (pc s)) as [|x o] eqn:Eo; auto. exfalso. stuck Hq WrFwd. }
+  assert (Hcap : length (out (pc s)) < out_cap).
+  { destruct (wr (wk s)) as [|oc|] eqn:Ew.
+    - rewrite Hwl by reflexivity. cbn. unfold out_cap. lia.
+    - exfalso. stuck Hq WrFinish.
+    - destruct W2 as [Hn|[_ Hx]]; [|congruence].
+      destruct W8 as [_ ->]; [rewrite Hn; now left|]. cbn. unfold out_cap. lia. }
+  destruct (no_block m0 n acts s Hr Hq Hsv Hcap) as (Hrd & Hwr & Had & Hreq & _).
+  rewrite Hwr in W2. destruct W2 as [Hn|[_ Hx]]; [|congruence].
+  destruct W8 as [_ Hout]; [rewrite Hn; now left|].
+  assert (Hdr : dropped (nt s) = []).
+  { destruct (dropped (nt s)) eqn:Ed; auto. assert (cleft (nt s) = true) by (apply W5; discriminate). congruence. }
+  exists (wmsgs (wsout (nt s))). split.
+  - rewrite W1 at 1. now rewrite Hn.
+  - intros c ch Hch Hcnt.
+    rewrite <- (P2 c ch Hch ltac:(lia)). rewrite Hdr, Hout, !app_nil_r.
+    rewrite held_all_exit by (intros k r Hk; apply (Hreq k r Hk)). cbn.
+    (* the one forwarder of c has left: the channel is drained *)
+    assert (Hex : exists k r, nth_error (reqs (pc s)) k = Some r /\ rc r = c).
+    { clear - Hcnt. unfold count_rc in Hcnt. induction (reqs (pc s)) as [|x t IH]; cbn in Hcnt; [discriminate|].
+      destruct (rc x =? c) eqn:E.
+      - exists 0, x. split; auto. now apply Nat.eqb_eq.
+      - destruct (IH Hcnt) as (k & r & Hk & Hrc). exists (S k), r. auto. }
+    destruct Hex as (k & r & Hk & Hrc). destruct (Hreq k r Hk) as [Hf _].
+    destruct (P1 k r Hk Hf) as (ch' & Hch' & Hb & _). rewrite Hrc, Hch in Hch'. inv Hch'.
+    now rewrite Hb, app_nil_r.
+Qed.
+
+(* hypotheses of order_complete / no_block / stop_signalled are satisfiable: a
+   three-message stream that the service ends; and one where the client drops *)
+Example order_complete_example :
+  exists acts s, run fixed (init (MReq 0) 1) acts = Some s /\ quiescentb fixed s = true /\
+    cleft (nt s) = false /\ forallb sclosed (svc s) = true /\
+    wsout (nt s) = [SMsg (0, 1); SMsg (0, 2); SMsg (0, 3); SClose CNormal] /\ census s = 0.
+Proof.
+  exists [AdTake; AdHandle; SEmit 0 1; FwRecv 0; FwSend 0; WrFwd; SEmit 0 2; SEmit 0 3; FwRecv 0; FwSend 0;
+          FwRecv 0; FwSend 0; WrFwd; WrFwd; SEnd 0; FwRecv 0; WrOutClosed; WrFinish; RdErr; RdFinish; AdEnd; StStop 0].
+  eexists. vm_compute. repeat split.
+Qed.
+
+Example stop_signalled_example :
+  exists acts s, run fixed (init (MReq 0) 1) acts = Some s /\ quiescentb fixed s = true /\
+    cleft (nt s) = true /\ map stp (reqs (pc s)) = [true].
+Proof.
+  exists [AdTake; AdHandle; SEmit 0 1; CLeave; RdErr; RdFinish; WrClosing; WrFinish; AdEnd; StStop 0; FwRecv 0; FwSend 0].
+  eexists. vm_compute. repeat split.
+Qed.
+
+(* pinned code: after an undecodable follow-up the adapter returns without closing
+   stopAll; the client leaves, nothing is left to do, the request was never told *)
+Theorem stop_refuted :
+  exists acts s, run pinned (init (MReq 0) 1) acts = Some s /\ quiescentb pinned s = true /\
+    cleft (nt s) = true /\ crashed s = false /\ map stp (reqs (pc s)) = [false].
+Proof.
+  exists [AdTake; AdHandle; CSend MBad; RdMsg; RdSend; AdTake; AdBad; WrOutClosed; WrFinish; CLeave; RdErr].
+  eexists. vm_compute. repeat split.
+Qed.
+
+(* the boolean used by the correspondence is the Prop used by the theorems *)
+Lemma quiescentb_sound fx s : quiescentb fx s = true -> quiescent fx s.
+Proof.
+  unfold quiescentb, quiescent. rewrite forallb_forall. intros H a Ha.
+  assert (Hin : In a (AdHandle :: tau_actions s) \/
+                (exists k, length (reqs (pc s)) <= k /\ (a = StStop k \/ a = FwRecv k \/ a = FwSend k))).
+  { unfold tau_actions. destruct a; try discriminate; cbn; auto 20.
+    all: destruct (Nat.lt_ge_cases k (length (reqs (pc s)))) as [Hlt|Hge]; [left|right; eauto].
+    all: do 14 right; apply in_flat_map; exists k; split; [apply in_seq; lia|cbn; auto]. }
+  destruct Hin as [Hin|(k & Hk & Hak)].
+  - specialize (H a Hin). destruct (step fx s a); [discriminate|reflexivity].
+  - apply nth_error_None in Hk. unfold step. destruct (crashed s); auto.
+    destruct Hak as [->|[->| ->]]; cbn; now rewrite Hk.
+Qed.
+
+(* ================================================================ 4. several sessions *)
+
+Lemma sstep_other fx s i a s' j :
+  sstep fx s (i, a) = Some s' -> i <> j -> nth_error s' j = nth_error s j.
+Proof.
+  unfold sstep. cbn [fst snd]. destruct (sys_crashed s); [discriminate|].
+  destruct (nth_error s i) as [c|]; [|discriminate].
+  destruct (step fx c a) as [c'|]; [|discriminate]. intros H Hne. inv H.
+  now apply nth_error_upd_other.
+Qed.
+
+Definition SInv (s : sys) : Prop := forall i c, nth_error s i = Some c -> Inv c.
+
+Lemma SInv_alive s : SInv s -> sys_crashed s = false.
+Proof.
+  intros H. unfold sys_crashed. destruct (existsb crashed s) eqn:E; auto.
+  apply existsb_exists in E as (c & Hin & Hc). apply In_nth_error in Hin as [i Hi].
+  pose proof (inv_ok c (H i c Hi)). congruence.
+Qed.
+
+Lemma sstep_SInv s ia s' : SInv s -> sstep fixed s ia = Some s' -> SInv s'.
+Proof.
+  intros Hs H. destruct ia as [i a]. unfold sstep in H. cbn [fst snd] in H.
+  destruct (sys_crashed s); [discriminate|].
+  destruct (nth_error s i) as [c|] eqn:Ec; [|discriminate].
+  destruct (step fixed c a) as [c'|] eqn:Est; [|discriminate]. inv H.
+  intros j d Hj. apply nth_error_upd in Hj as [(<- & -> & _)|(Hne & Hj)]; eauto.
+  eapply step_Inv; eauto.
+Qed.
+
+Definition sinit (l : list (cmsg * nat)) : sys := map (fun p => init (fst p) (snd p)) l.
+
+Lemma SInv_init l : SInv (sinit l).
+Proof.
+  intros i c H. unfold sinit in H. apply nth_error_In, in_map_iff in H as (p & <- & _). apply Inv_init.
+Qed.
+
+Lemma srun_SInv acts : forall s s', SInv s -> srun fixed s acts = Some s' -> SInv s'.
+Proof.
+  induction acts as [|a r IH]; intros s s' Hs H; cbn in H.
+  - now inv H.
+  - destruct (sstep fixed s a) as [s1|] eqn:E; [|discriminate]. eapply IH; [|exact H]. eapply sstep_SInv; eauto.
+Qed.
+
+(* no session of a server ever crashes it, whatever all the clients and services do *)
+Theorem sys_no_crash l acts s : srun fixed (sinit l) acts = Some s -> sys_crashed s = false.
+Proof. intros H. apply SInv_alive. eapply srun_SInv; eauto. apply SInv_init. Qed.
+
+(* other clients are unaffected: whatever the other sessions have done and are in
+   the middle of, everything session j can do on its own it can do on the server,
+   and that leaves every other session untouched *)
+Theorem sessions_independent l acts s j c racts c' :
+  srun fixed (sinit l) acts = Some s -> nth_error s j = Some c ->
+  run fixed c racts = Some c' ->
+  exists s', srun fixed s (map (pair j) racts) = Some s' /\ nth_error s' j = Some c' /\
+             forall i, i <> j -> nth_error s' i = nth_error s i.
+Proof.
+  intros Hr. assert (Hs : SInv s) by (eapply srun_SInv; eauto; apply SInv_init). clear Hr.
+  revert s c Hs. induction racts as [|a r IH]; intros s c Hs Hc H; cbn in H.
+  - inv H. exists s. cbn. auto.
+  - destruct (step fixed c a) as [c1|] eqn:E; [|discriminate].
+    assert (Hlen : j < length s) by (apply nth_error_Some; congruence).
+    assert (Hst : sstep fixed s (j, a) = Some (upd s j c1)).
+    { unfold sstep. cbn [fst snd]. now rewrite (SInv_alive s Hs), Hc, E. }
+    destruct (IH (upd s j c1) c1) as (s' & Hrun & Hj & Ho); auto.
+    + eapply sstep_SInv; eauto.
+    + now apply nth_error_upd_same.
+    + exists s'. cbn [map srun]. rewrite Hst. split; [exact Hrun|]. split; [exact Hj|].
+      intros i Hi. rewrite Ho by assumption. apply nth_error_upd_other. congruence.
+Qed.
+
+(* pinned code: one client's undecodable follow-up takes the process down and a
+   bystander session whose next message is ready in outChan never gets it *)
+Theorem bystander_refuted :
+  exists acts s c1 c1', srun pinned (sinit [(MReq 0, 1); (MReq 0, 1)]) acts = Some s /\
+    nth_error s 1 = Some c1 /\ step pinned c1 WrFwd = Some c1' /\
+    sstep pinned s (1, WrFwd) = None.
+Proof.
+  exists [(1, AdTake); (1, AdHandle); (1, SEmit 0 9); (1, FwRecv 0); (1, FwSend 0);
+          (0, AdTake); (0, AdHandle); (0, CSend MBad); (0, RdMsg); (0, RdSend); (0, AdTake); (0, AdBad);
+          (0, SEnd 0); (0, FwRecv 0)].
+  eexists. eexists. eexists. vm_compute. repeat split.
+Qed.
